@@ -18,4 +18,17 @@ def copyWithin {α : Type} (prim : CopyPrim) (buf : List α) (dst src n : Nat) :
   else if prim = .memcpy ∧ rangesOverlap dst src n = true then .error .overlap
   else .ok (buf.take dst ++ (buf.drop src).take n ++ buf.drop (dst + n))
 
+/-- the three capacity formulas of qvector_addat's growth block -/
+inductive GrowKind where
+  | double     -- (max + 1) * 2
+  | linear     -- max + initnum
+  | exact      -- max + 1
+  deriving DecidableEq, Repr, Inhabited
+
+def growBy (k : GrowKind) (max initnum : Nat) : Nat :=
+  match k with
+  | .double => (max + 1) * 2
+  | .linear => max + initnum
+  | .exact => max + 1
+
 end Qlibc.Seq
